@@ -84,7 +84,7 @@ Init == /\ scen \in Scens
 Fin(o) == IF scen = "dyn0" THEN (IF PanicIfNotUpdated THEN "panic" ELSE "error") ELSE o
 
 Emit1(t) == /\ toks' = Append(toks, t)
-            /\ size' = size + (IF t.t = "data" THEN t.n * Unit(t.c) ELSE FieldSize(t.t) - (IF t.cut THEN 1 ELSE 0))
+            /\ size' = size + (IF t.t = "data" THEN t.n * Unit(cur.ty) ELSE FieldSize(t.t) - (IF t.cut THEN 1 ELSE 0))
 
 AfterSeq(f) == IF f.eqLens THEN "hlen"
                ELSE IF f.eqTR /\ ~f.trZero THEN "htr"
@@ -166,7 +166,7 @@ Data(n) ==
          u == Unit(cur.ty)
          full == n = v
      IN /\ n \in (IF cc \in {"big", "huge"} THEN {0, 2} ELSE 0..v)
-        /\ Emit1(Tok("data", cur.ty, v, n, FALSE))
+        /\ Emit1(Tok("data", cur.ty \o ToString(cur.k), v, n, FALSE))   \* class = type and key, e.g. "F1", "V2"
         /\ alloc' = IF scen = "dyn0" THEN 0
                     ELSE alloc + (IF AllocFromWire THEN v * u ELSE Min2(v * u, n * u))
         /\ over' = (over \/ (scen # "dyn0" /\ cc \in {"big", "huge"}))
